@@ -975,7 +975,11 @@ impl C06 {
         // large ones) plus a few units of the smallest subnormal, the granularity of every result near zero
         let yscale = ymin.abs().max(ymax.abs());
         let q1 = if case.f32m { f32::from_bits(1) as f64 } else { f64::from_bits(1) };
-        let quantum = 4.0 * q1;
+        // Below the normal range the unit of rounding is the smallest subnormal: an aggregation that rounds once per tree
+        // (a running mean, say) may be off by half a unit per tree, a single division by one unit. (n_trees + 4) units.
+        // What separates a legitimate aggregation from a broken one there is the unanimous case, judged below: when every
+        // member tree predicts the same value the mean IS that value.
+        let quantum = (4.0 + pr.n_trees as f64) * q1;
         // range clause near zero: the trees derive a node's sum from its rounded mean (mean * count) and a child's mean
         // from the difference of two such sums, so a leaf value carries up to (rows in the root / rows in the leaf) / 2
         // roundings per level — relative to the values in the normal range (covered by range_tol), in units of the
@@ -1075,6 +1079,21 @@ impl C06 {
                 } else {
                     let err = (a_pred(i) - mean).abs();
                     rep.max(if case.f32m { "reg_mean_err_rel_f32" } else { "reg_mean_err_rel_f64" }, err / (yscale + quantum));
+                    // unanimous member trees: the mean of identical values is that value - up to 2 ulp of the element type
+                    // in the normal range (the sum of k copies may round), exactly where the arithmetic is exact (values
+                    // that are small multiples of the smallest subnormal)
+                    let first = member[0][i];
+                    if first.is_finite() && member.iter().all(|m| m[i].to_bits() == first.to_bits()) {
+                        rep.count("steps.unanimous-rows-judged", 1);
+                        let ulp = if case.f32m { (first.abs() as f32 * f32::EPSILON) as f64 } else { first.abs() * f64::EPSILON };
+                        // (k copies of an integer number of units add up exactly while the total stays below 2^23 / 2^52 units)
+                        let exact_regime = first.abs() * (member.len() as f64) < q1 * if case.f32m { 8_388_608.0 } else { 4_503_599_627_370_496.0 };
+                        let allow = if exact_regime { 0.0 } else { 2.0 * ulp };
+                        if !((a_pred(i) - first).abs() <= allow) {
+                            rep.fail("not-mean", "forest-predict-unanimous", format!("{}: all {} member trees predict {:e} for row {:?}, the forest returns {:e}", ctx, member.len(), first, q[i], a_pred(i)));
+                            break;
+                        }
+                    }
                     if !(err <= mean_tol * yscale + quantum) {
                         rep.fail("not-mean", "forest-predict", format!("{}: predict returned {:e} for row {:?}; the mean of the member trees is {:e}", ctx, a_pred(i), q[i], mean));
                         break;
